@@ -296,8 +296,8 @@ impl Property for C17 {
     }
     fn budget(&self, tier: Tier) -> (u32, usize) {
         match tier {
-            Tier::Quick => (4_000, 8),
-            Tier::Thorough => (200_000, 16),
+            Tier::Quick => (40_000, 8),
+            Tier::Thorough => (500_000, 16),
         }
     }
     fn run(&self, case: &FbCase) -> Report {
